@@ -157,6 +157,38 @@ func c14(r *Run) {
 		}
 	}
 
+	// a connection that was established is handed to the caller or closed - never dropped
+	for _, c := range []struct{ fn, callee string }{
+		{"(*dialer).dialTCP", "DialTCP"}, {"DialTCP", "(*sysDialer).dialTCP"}, {"DialUnix", "(*sysDialer).dialUnix"},
+		{"(*sysDialer).dialUnix", "unixSocket"},
+	} {
+		fn, callee := w.MustFn(c.fn), w.MustFn(c.callee)
+		calls := findIns(fn, func(i ssa.Instruction) bool { return isCall(i, callee) })
+		if len(calls) == 0 {
+			r.ob("C14.R4:established-is-returned:"+c.fn, "the dial path goes through "+c.callee, fn, nil, false, "call missing", false)
+			continue
+		}
+		for i, call := range calls {
+			ss := &Search{Fn: fn, Stop: isOwnerClose, CutEdge: cutOn(anyErrNonNil())}
+			var wit *Witness
+			for _, ret := range ss.Reachable([]Start{After(call)}, func(x ssa.Instruction) bool { _, ok := x.(*ssa.Return); return ok }) {
+				dropped := false
+				for _, v := range resultValues(ret.(*ssa.Return), 0) {
+					if isNilConst(v) {
+						dropped = true
+					}
+				}
+				if dropped {
+					s2 := &Search{Fn: fn, Stop: isOwnerClose, CutEdge: cutOn(anyErrNonNil())}
+					wit = s2.Find([]Start{After(call)}, isIns(ret), false)
+					r.Visited += s2.Visited
+				}
+			}
+			r.Visited += ss.Visited
+			r.obW(fmt.Sprintf("C14.R4:established-is-returned:%s#%d", c.fn, i+1), "once "+c.callee+" has succeeded (no error observed) every return hands the connection to the caller, or it was closed first: an established connection (descriptor, poller slot, registration) is never dropped on the floor", fn, call, wit, "no return of a nil connection reachable without err != nil or Close()")
+		}
+	}
+
 	// ---- R2 no registration leak ----------------------------------------------------------------------
 	{
 		fn := w.MustFn("(*netFD).connect")
